@@ -235,7 +235,7 @@ def run(ck: Check) -> None:
     for i in range(ck.n(24, 150)):
         s, tag = pos_schema(ck, i, False)
         pos_cases.append((s, tag, False))
-    for i in range(ck.n(6, 30)):          # inside the class of the line-1 finding
+    for i in range(ck.n(6, 30)):          # definitions on the first line of a file (regression of col-line1 / indent-line1)
         s, tag = pos_schema(ck, i, True)
         pos_cases.append((s, tag, True))
     pjobs = [{"op": "parse", "dir": os.path.join(ck.dir, f"p{pi}"), "files": s.texts, "root": ROOT}
@@ -290,11 +290,9 @@ def run(ck: Check) -> None:
                 if g["lineno"] != line:
                     ck.violation(f"{what} {name}: recorded line {g['lineno']}, it stands on line {line}", rp)
                 if g["col"] != col:
-                    ck.violation(f"{what} {name}: recorded column {g['col']}, it stands in column {col}", rp,
-                                 key="col-line1" if (line == 1 and g["col"] == col - 1) else None)
+                    ck.violation(f"{what} {name}: recorded column {g['col']}, it stands in column {col}", rp)
                 if what == "def" and g["indent"] != indent:
-                    ck.violation(f"{what} {name}: recorded indent {g['indent']}, it is {indent}", rp,
-                                 key="indent-line1" if (line == 1 and g["indent"] == (indent - 1 if indent > 0 else -1)) else None)
+                    ck.violation(f"{what} {name}: recorded indent {g['indent']}, it is {indent}", rp)
 
     # ------------------------------------------------------------------------------------------
     # Coq evaluation
@@ -334,11 +332,9 @@ def run(ck: Check) -> None:
             if code & 512:
                 ck.violation(f"{what} {name}: recorded line {g['lineno']}, it stands on line {line}", replay)
             if code & 16384:
-                key = "col-line1" if (line == 1 and g["col"] == col - 1) else None
-                ck.violation(f"{what} {name} at {s.files[fi].name}:{line}:{col}: recorded column {g['col']}", replay, key=key)
+                ck.violation(f"{what} {name} at {s.files[fi].name}:{line}:{col}: recorded column {g['col']}", replay)
             if code & 32768:
-                key = "indent-line1" if (line == 1 and g["indent"] == (indent - 1 if indent > 0 else -1)) else None
-                ck.violation(f"{what} {name} at {s.files[fi].name}:{line}: indent {indent}, recorded {g['indent']}", replay, key=key)
+                ck.violation(f"{what} {name} at {s.files[fi].name}:{line}: indent {indent}, recorded {g['indent']}", replay)
         timing["coq_eval_s"] = round(time.time() - t3, 1)
 
     ck.coverage["evaluations"] = stats["names"] + stats["lint_runs"] + stats["error_cases"] + stats["positions"] + stats["references"]
@@ -346,7 +342,7 @@ def run(ck: Check) -> None:
     ck.coverage["rule"] = ("naming helpers == model on every name; per run: warnings (class, line) in order and exit status == model, "
                            "check exit <-> error or warning, conforming => silent, clear violation => its warning at its line, "
                            "outputs identical with/without -q; per recorded position: col/indent == translated arithmetic, "
-                           "line/col/indent == true position (line 1 excepted: known finding); per invalid schema: one red "
+                           "line/col/indent == true position (first line included); per invalid schema: one red "
                            "diagnostic citing the file and line of the inserted statement")
     ck.coverage["samples"] = samples
     ck.coverage["tie"].update({"T0": "gen/GenCli.v", "timing": timing, "error_kinds": kinds_seen})
